@@ -496,6 +496,31 @@ def _activate_plugin_worlds() -> Iterator[None]:
 
 
 @contextmanager
+def _forget_traces_made_under_patches() -> Iterator[None]:
+    """Drop JAX's staged traces when the conversion is over (or has failed).
+
+    A user ``jax.jit`` object that is traced for the first time while the plugin world
+    is active keeps, in JAX's per-function staging cache, a jaxpr that contains
+    converter-only primitives (``jax.numpy.tanh`` …). A later *eager* call with the same
+    signature would re-use that trace and fail with "MLIR translation rule … not found".
+    Only the two staging caches are cleared (jit parameter inference and
+    ``trace_to_jaxpr``): functions that were already executed keep their compiled fast
+    path, everything else simply re-traces on its next call.
+    """
+    try:
+        yield
+    finally:
+        try:
+            from jax._src import pjit as _pjit
+            from jax._src.interpreters import partial_eval as _pe
+
+            _pjit._infer_params_cached.cache_clear()
+            _pe.trace_to_jaxpr.cache_clear()
+        except Exception:  # private API moved: fall back to the public, heavier call
+            jax.clear_caches()
+
+
+@contextmanager
 def _force_jax_x64(enable_double_precision: bool) -> Iterator[None]:
     read_config = jax.config.read if hasattr(jax.config, "read") else None
     if callable(read_config):
@@ -798,7 +823,7 @@ def to_onnx(
     2) Lower to onnx_ir (plugins; function bodies allowed).
     3) Run a single IR-wide optimization pass (cross-node cleanups).
     """
-    with _force_jax_x64(enable_double_precision):
+    with _force_jax_x64(enable_double_precision), _forget_traces_made_under_patches():
         default_float = _np_float_dtype(enable_double_precision)
         trace = _trace_to_jaxpr(
             fn=fn,
